@@ -36,6 +36,8 @@ def parse_lex_obs(lines):
             d["panic"] = l
         elif f[0] == "need":
             d["needs"].append(tuple(f[1].split(" ")))
+        elif f[0] == "allocated":
+            d["allocated"] = int(f[1])
         elif f[0] == "allocs":
             d["allocs"] = f[1] if len(f) > 1 else ""
         else:
@@ -56,15 +58,23 @@ def seed_tables(c, f):
     return c
 
 
-def run_lex(cases, wd, tag="lex", timeout=900):
+def run_lex(cases, wd, tag="lex", timeout=900, isolated=False, go_env=None):
     """cases: list of dict(id, file, lopts?, src?). Returns (go, model, crashed)."""
     for c in cases:
         if "base" in c and "g" in c["base"] and "_dec" not in c:
             seed_tables(c, c["base"])
     impl = os.path.join(cm.BUILD, "impl")
     model_exe = os.path.join(cm.BUILD, "model")
-    go_raw, crashed = cm.run_sharded(impl, "lex", [(c["id"], lex_lines(c)) for c in cases], wd, tag + "go", timeout=timeout)
+    if isolated:
+        go_raw, culprits = cm.run_isolated(impl, "lex", [(c["id"], lex_lines(c)) for c in cases], wd, tag + "go", timeout=60,
+                                           env=go_env, mem_bytes=8 << 30)
+        crashed = []
+    else:
+        go_raw, crashed = cm.run_sharded(impl, "lex", [(c["id"], lex_lines(c)) for c in cases], wd, tag + "go", timeout=timeout, extra_env=go_env)
+        culprits = {}
     go = {k: parse_lex_obs(v) for k, v in go_raw.items()}
+    for k, why in culprits.items():
+        go[k] = {"new": None, "events": [], "end": None, "panic": "process-death: " + why, "needs": [], "allocs": None, "other": []}
     table = {}            # global oracle table: (comp, avail, availend) -> (plain, end)
     pending = list(cases)
     model = {}
